@@ -267,6 +267,23 @@ def impl(case):
     from phylib.utils import _misc as M
     op = case['op']
     with C.scratch_dir() as d:
+        if case.get('stale'):
+            # the SAME path held other contents before, written and read back once (str and Path spellings): what is read
+            # after the judged write is the file as it is now
+            try:
+                if op == 'json':
+                    M.save_json(d / 'x.json', {'stale': [1, 2, 3], 5: 'old'}); M.load_json(str(d / 'x.json'))
+                elif op == 'tsv':
+                    M.write_tsv(d / ('t.' + case['ext']), [{'id': 1, 'old': 'x'}, {'id': 2, 'old': 'y'}]); M.read_tsv(str(d / ('t.' + case['ext'])))
+                elif op == 'simple':
+                    M._write_tsv_simple(d / ('s.' + case['ext']), 'old', {7: 'x', 8: 2}); M._read_tsv_simple(d / ('s.' + case['ext']))
+                    if case.get('metadata'):
+                        from phylib.io.model import load_metadata as _lm
+                        _lm(d / ('s.' + case['ext']))
+                elif op == 'params':
+                    M.write_python(d / 'params.py', {'stale_entry': 1, 'n_channels_dat': 32}); M.read_python(str(d / 'params.py')); M.read_python(d / 'params.py')
+            except Exception:  # noqa
+                pass
         if op == 'json':
             data = {(k['int'] if 'int' in k else k['str']): build(v) for k, v in case['dict']}
             M.save_json(d / 'x.json', data)
@@ -446,6 +463,8 @@ def nontrivial(case):
 
 def tally(rep, case, impl_res, ans):
     rep.count('op:' + case['op'])
+    if case.get('stale') and case['op'] in ('json', 'tsv', 'simple', 'params'):
+        rep.count('path_held_other_contents_read_before')
     if case['op'] == 'json':
         for k, v in case['dict']:
             rep.count('key:%s' % ('int' if 'int' in k else 'str'))
@@ -574,7 +593,7 @@ def gen(tier, rng):
         strs = rng.sample(['a', 'b1', 'x-1', 'key', '1.0', '+3', ' 2', 'ñ', '\u00b2', '\u0663', '1_0', '\uff11'], rng.randrange(0, 3))
         entries = [[{'int': i}, rand_value(rng)] for i in ints] + [[{'str': s}, rand_value(rng)] for s in strs]
         rng.shuffle(entries)
-        yield dict(p=PID, op='json', dict=entries)
+        yield dict(p=PID, op='json', dict=entries, stale=rng.random() < .3)
     # the number grammar of _try_make_number
     yield dict(p=PID, op='number', strings=NUMBERISH)
     for _ in range(60 if q else 2000):
@@ -613,7 +632,7 @@ def gen(tier, rng):
         npfloat = rng.pick([0, 0, 32, 64])
         if npfloat == 32 and any('float' in c and abs(c['float']) > 3e38 for r in rows for _, c in r):
             npfloat = 0         # would be inf as a float32: finite floats only
-        yield dict(p=PID, op='tsv', rows=rows, ext=ext, first=rng.pick([None, fields[-1], 'absent']), npfloat=npfloat)
+        yield dict(p=PID, op='tsv', rows=rows, ext=ext, first=rng.pick([None, fields[-1], 'absent']), npfloat=npfloat, stale=rng.random() < .3)
     for _ in range(300 if q else 5000):
         ids = rng.sample(list(range(0, 500)) + [-1, -20, 10 ** 6, 2 ** 40], rng.randrange(0, 6))
         data = []
@@ -625,7 +644,7 @@ def gen(tier, rng):
         ext = rng.pick(['tsv', 'csv'])
         yield dict(p=PID, op='simple', field=rng.pick(['group', 'KSLabel', 'Amplitude', 'my field', 'a,b', 'q"x'] +
                                                       (['t\tab'] if ext == 'tsv' else [])),
-                   data=data, ext=ext, metadata=rng.random() < .5)
+                   data=data, ext=ext, metadata=rng.random() < .5, stale=rng.random() < .3)
     for _ in range(300 if q else 5000):
         keys = rng.sample(['dat_path', 'n_channels_dat', 'dtype', 'offset', 'sample_rate', 'hp_filtered', 'extra', '_x1',
                            'Fs', 'nChan', 'a', 'match', 'x_y_2'], rng.randrange(1, 6))
@@ -656,4 +675,4 @@ def gen(tier, rng):
                 v = {'tuple': [scalar(True) for _ in range(rng.randrange(0, 4))]}
             data.append([k, v])
         # NumPy scalars only at top level (inside a list repr() writes `np.int64(3)`, which exec cannot read: out of domain)
-        yield dict(p=PID, op='params', data=data, npvalues=rng.pick([0, 0, 32, 64]))
+        yield dict(p=PID, op='params', data=data, npvalues=rng.pick([0, 0, 32, 64]), stale=rng.random() < .4)
